@@ -232,6 +232,13 @@ class SchedCondition(object):
 
     def wait_for(self, predicate, timeout=None):
         r = predicate()
+        if timeout is not None and not r:
+            # a FINITE timeout is an environment event: the timer may land before the condition holds.  Every timed wait is
+            # counted; the scheduler can be told to let the n-th one expire (sched.fire_timer = n).
+            n = getattr(self.s, "timed_waits", 0)
+            self.s.timed_waits = n + 1
+            if getattr(self.s, "fire_timer", None) == n:
+                return False
         while not r:
             self.wait()
             r = predicate()
